@@ -73,7 +73,7 @@ func (c *Conn) Watch() {
 				Tags:   Tags{0xFFFF: []byte(err.Error())},
 			})
 			continue
-		} else if callback, ok := c.lookup(ReadSequence(packet)); ok {
+		} else if callback, ok := c.take(ReadSequence(packet)); ok {
 			callback(packet)
 		} else {
 			c.receiveQueue <- packet
@@ -112,10 +112,12 @@ func (c *Conn) unregister(sequence int32) {
 	delete(c.pending, sequence)
 }
 
-func (c *Conn) lookup(sequence int32) (callback func(interface{}), ok bool) {
+func (c *Conn) take(sequence int32) (callback func(interface{}), ok bool) {
 	c.mutex.Lock()
 	defer c.mutex.Unlock()
-	callback, ok = c.pending[sequence]
+	if callback, ok = c.pending[sequence]; ok {
+		delete(c.pending, sequence) // one response per request: the waiter's channel holds a single value
+	}
 	return
 }
 
